@@ -94,14 +94,14 @@ pub fn replay(cases: &[Value], out: &mut Out) {
 			}));
 		}
 		for h in handles {
-			for (i, k, (key, detail)) in h.await.unwrap() {
-				out.verdict(i, k, key, detail);
+			for (i, k, (probs, detail)) in h.await.unwrap() {
+				out.problems(i, k, probs, detail);
 			}
 		}
 	});
 }
 
-async fn one_case(rig: &Rig, i: usize, k: usize, c: &Value) -> (Option<String>, Value) {
+async fn one_case(rig: &Rig, i: usize, k: usize, c: &Value) -> (Vec<(String, Value)>, Value) {
 	let mut rng = rng_for(i, k);
 	let case = &c["case"];
 	let kind = c["kind"].as_str().unwrap();
@@ -216,8 +216,6 @@ async fn one_case(rig: &Rig, i: usize, k: usize, c: &Value) -> (Option<String>, 
 			}
 		}
 	}
-	match problems.into_iter().next() {
-		None => (None, json!({"bytes": text_view})),
-		Some((key, d)) => (Some(key), json!({"case": c, "bytes": text_view, "detail": d})),
-	}
+	let probs = problems.into_iter().map(|(key, d)| (key, json!({"case": c, "bytes": text_view, "detail": d}))).collect();
+	(probs, json!({"bytes": text_view}))
 }
